@@ -408,7 +408,15 @@ func Timezone(t *rapid.T, label string) compact_time.Timezone {
 		}
 		if rapid.IntRange(0, 2).Draw(t, label+".rnd") == 0 {
 			b := []byte{areaFirst[rapid.IntRange(0, len(areaFirst)-1).Draw(t, label+".af")]}
-			for i, n := 0, rapid.IntRange(0, 12).Draw(t, label+".an"); i < n; i++ {
+			n := rapid.IntRange(0, 12).Draw(t, label+".an")
+			switch rapid.IntRange(0, 5).Draw(t, label+".along") {
+			case 0, 1:
+				// long names: the encoded time crosses the encoders' initial buffer sizes (32, 64 bytes)
+				n = rapid.IntRange(13, 62).Draw(t, label+".an2")
+			case 2:
+				n = rapid.IntRange(63, 126).Draw(t, label+".an3") // 127 characters is the maximum
+			}
+			for i := 0; i < n; i++ {
 				b = append(b, areaNext[rapid.IntRange(0, len(areaNext)-1).Draw(t, label+".ac")])
 			}
 			return compact_time.TZAtAreaLocation(string(b))
